@@ -21,6 +21,7 @@ type Env struct {
 	tpkg  *types.Package
 	spkg  *ssa.Package
 	hget  func(st *State, comp string) string
+	gconst func(gl *ssa.Global, st *State) (Val, bool)
 	inDef bool // compiling a spec function body: no heap access
 }
 
@@ -392,6 +393,11 @@ func (env *Env) lookupPkgName(p *types.Package, name string) (Val, bool) {
 			}
 			if sp != nil {
 				if g, ok := sp.Members[name].(*ssa.Global); ok {
+					if env.gconst != nil {
+						if v, ok := env.gconst(g, env.st); ok {
+							return v, true
+						}
+					}
 					c := env.m.compGlobal(g)
 					t := g.Type().(*types.Pointer).Elem()
 					return Val{S: env.heap(c), Sort: env.m.sortOf(t), G: t}, true
